@@ -91,6 +91,17 @@ func (c *Conversation) lastMessage(msg MessagePlaintext, opaque ...interface{}) 
 	c.resend.later(msg, opaque...)
 }
 
+// rememberLastMessage keeps the most recent user message of an encrypted session, and only that one,
+// for a potential resend. Messages without text (heartbeats, TLV-only messages) are not remembered.
+func (c *Conversation) rememberLastMessage(msg MessagePlaintext) {
+	if c.resend.retransmitting || len(msg) == 0 {
+		return
+	}
+
+	c.resend.clear()
+	c.resend.later(msg)
+}
+
 func (c *Conversation) updateMayRetransmitTo(f retransmitFlag) {
 	c.resend.mayRetransmit = f
 }
